@@ -128,7 +128,7 @@ def epc_case(rng, bad=False):
         kw['encoding'] = rng.choice([1, 2, 3, 4, 5, 6, 7, 8, 'utf-8', 'ISO-8859-1', 'iso-8859-15', 'iso-8859-7'])
     if bad:
         which = rng.choice(['name-long', 'name-empty', 'iban-short', 'iban-long', 'bic-len', 'purpose-len', 'text-long', 'ref-long',
-                            'both', 'neither', 'amount-zero', 'amount-big', 'amount-neg', 'enc-num', 'enc-name'])
+                            'both', 'neither', 'amount-zero', 'amount-big', 'amount-neg', 'enc-num', 'enc-name', 'amount-window', 'amount-window'])
         kw['bad'] = which
         if which == 'name-long':
             kw['name'] = 'n' * 71
@@ -153,6 +153,10 @@ def epc_case(rng, bad=False):
         elif which == 'neither':
             kw.pop('text', None)
             kw.pop('reference', None)
+        elif which == 'amount-window':
+            # just outside the range, within half a cent of the limits
+            kw['raw_amount'] = rng.choice(['0.009', '0.0051', '0.0099', '999999999.991', '999999999.994', '999999999.9949'])
+            kw['form'] = rng.choice(['decimal', 'str'])
         elif which == 'amount-zero':
             kw['cents'] = 0
         elif which == 'amount-big':
@@ -439,6 +443,9 @@ EPC_ENCODINGS = ['utf-8', 'iso-8859-1', 'iso-8859-2', 'iso-8859-4', 'iso-8859-5'
 
 
 def epc_amount(kw):
+    if 'raw_amount' in kw:
+        d = decimal.Decimal(kw['raw_amount'])
+        return (d if kw['form'] == 'decimal' else kw['raw_amount']), d
     cents = kw['cents']
     d = decimal.Decimal(cents) / 100
     form = kw['form']
